@@ -88,7 +88,8 @@ TIE = {
               'MalVerif.Py.TieLink', 'MalVerif.PropsGen.C01', 'MalVerif.PropsGen.C08', 'MalVerif.PropsGen.C09',
               'MalVerif.PropsGen.C11', 'MalVerif.PropsGen.C12', 'MalVerif.PropsGen.C13',
               'MalVerif.Py.TieAttach', 'MalVerif.PropsGen.C11_Attach', 'MalVerif.Py.TieNodes', 'MalVerif.Py.TieRegen',
-              'MalVerif.PropsGen.C02', 'MalVerif.PropsGen.C01_Gen'],
+              'MalVerif.PropsGen.C02', 'MalVerif.PropsGen.C01_Gen', 'MalVerif.Py.TieLinkAt', 'MalVerif.Py.TieRegenFull',
+              'MalVerif.PropsGen.C09_Regen'],
     # which modules carry the claim of a property (its PropsGen file and what that imports)
     'needs': {
         'C01': ['MalVerif.Py.TieEval', 'MalVerif.Py.TieLink', 'MalVerif.PropsGen.C01', 'MalVerif.Py.TieNodes',
@@ -96,7 +97,9 @@ TIE = {
         'C02': ['MalVerif.Py.TieEval', 'MalVerif.Py.TieGraph', 'MalVerif.Py.TieLink', 'MalVerif.Py.TieNodes',
                 'MalVerif.PropsGen.C02'],
         'C08': ['MalVerif.Py.TieApriori', 'MalVerif.PropsGen.C08'],
-        'C09': ['MalVerif.Py.TieNode', 'MalVerif.Py.TieGraph', 'MalVerif.PropsGen.C09'],
+        'C09': ['MalVerif.Py.TieNode', 'MalVerif.Py.TieGraph', 'MalVerif.PropsGen.C09', 'MalVerif.Py.TieEval',
+                'MalVerif.Py.TieLink', 'MalVerif.Py.TieNodes', 'MalVerif.Py.TieRegen', 'MalVerif.Py.TieLinkAt',
+                'MalVerif.Py.TieRegenFull', 'MalVerif.PropsGen.C01_Gen', 'MalVerif.PropsGen.C09_Regen'],
         'C11': ['MalVerif.Py.TieNode', 'MalVerif.PropsGen.C11', 'MalVerif.Py.TieGraph', 'MalVerif.Py.TieAttach',
                 'MalVerif.PropsGen.C11_Attach'],
         'C12': ['MalVerif.Py.TieNode', 'MalVerif.PropsGen.C12'],
@@ -107,7 +110,7 @@ TIE = {
         'C01': 'attackgraph.py: _process_step_expression (the methods it calls on lang_graph / model are parameters: EvalEnv), the linking loop (second loop) of _generate_graph, the node-creation loop (first loop) and the whole of _generate_graph (with add_node, get_node_by_full_name, node.full_name)',
         'C02': 'attackgraph.py: the node-creation loop (first loop) of _generate_graph with add_node, get_node_by_id, get_node_by_full_name, _process_step_expression; node.py: full_name (model.assets, lang_graph._get_attacks_for_asset_type and getattr(asset, defense) are parameters: EvalEnv)',
         'C08': 'analyzers/apriori.py: propagate_viability_from_node, propagate_necessity_from_node, _has_ttc_distribution, evaluate_viability, evaluate_necessity, evaluate_viability_and_necessity, calculate_viability_and_necessity',
-        'C09': 'attackgraph.py: get_node_by_id, get_node_by_full_name, get_attacker_by_id, add_node, remove_node, add_attacker, remove_attacker; attacker.py: compromise, undo_compromise; node.py: full_name',
+        'C09': 'attackgraph.py: get_node_by_id, get_node_by_full_name, get_attacker_by_id, add_node, remove_node, add_attacker, remove_attacker, regenerate_graph, __init__, _generate_graph; attacker.py: compromise, undo_compromise; node.py: full_name',
         'C11': 'attacker.py: compromise, undo_compromise; node.py: is_compromised, is_compromised_by, compromise, undo_compromise; attackgraph.py: attach_attackers (with add_attacker, get_node_by_full_name; model.attackers and their entry points are parameters: EvalEnv)',
         'C12': 'query.py: is_node_traversable_by_attacker, get_attack_surface, update_attack_surface_add_nodes, get_defense_surface, get_enabled_defenses; node.py: is_available_defense, is_enabled_defense, is_compromised_by',
         'C13': 'analyzers/apriori.py: prune_unviable_and_unnecessary_nodes; attackgraph.py: remove_node; attacker.py: undo_compromise',
